@@ -1,5 +1,69 @@
-"""C01 part (ii): the payload-length grid (placeholder until the grid generator is built)."""
+"""C01 part (ii): the payload-length grid (spec/GenLen.tla)."""
+import copy
+
+from .. import pipeline, sessprop
+
+KINDS = {'cfg', 'srv', 'rd', 'ev'}
+
+
+def frame(op, fin, n, form, kind):
+    f = {"t": "f", "op": op, "fin": fin, "blob": n, "blobkind": kind}
+    if form:
+        f['lenform'] = form
+    return f
+
+
+def scenario(c):
+    n, form, place = c['len'], c['form'], c['place']
+    small = {"t": "f", "op": 0, "fin": 1, "pl": [122]}
+    if place == 'single_text':
+        frames = [frame(1, 1, n, form, 'ascii')]
+    elif place == 'single_binary':
+        frames = [frame(2, 1, n, form, 'allbytes')]
+    elif place == 'first_fragment':
+        frames = [frame(2, 0, n, form, 'bin'), {"t": "f", "op": 0, "fin": 1, "pl": [1, 2]}]
+    elif place == 'middle_fragment':
+        frames = [{"t": "f", "op": 1, "fin": 0, "pl": [97]}, frame(0, 0, n, form, 'ascii'), small]
+    elif place == 'last_fragment':
+        frames = [{"t": "f", "op": 2, "fin": 0, "pl": [0]}, {"t": "f", "op": 9, "fin": 1, "pl": []}, frame(0, 1, n, form, 'allbytes')]
+    elif place == 'ping':
+        frames = [frame(9, 1, n, 0, 'allbytes')]
+    elif place == 'pong':
+        frames = [frame(10, 1, n, 0, 'allbytes')]
+    else:
+        frames = [{"t": "f", "op": 1, "fin": 0, "pl": [97]}, frame(9, 1, n, 0, 'allbytes'), {"t": "f", "op": 0, "fin": 1, "pl": [98]}]
+    frames.append({"t": "f", "op": 2, "fin": 1, "pl": [255]})
+    return {"conns": [{"stream": [{"t": "http", "v": "ok"}] + frames}], "connect_kwargs": {"ping_rate": 0, "close_timeout": None}}
 
 
 def add(run, tier):
-    return
+    res, _ = pipeline.generate('GenLen', "SPECIFICATION Spec\nINVARIANT EmitCases\nCHECK_DEADLOCK FALSE\n")
+    run.add_tlc('GenLen (length grid)', res)
+    cases = [l for l in res.lines if isinstance(l, dict) and 'lencase' in l]
+    if not cases:
+        raise pipeline.MachineryFailure('GenLen printed no cases')
+    jobs = []
+    for c in cases:
+        sc = scenario(c['lencase'])
+        jobs.append((c, 'per_frame', sc))
+        one = copy.deepcopy(sc)
+        one['conns'][0]['steps'] = [{"kind": "data", "items": len(sc['conns'][0]['stream'])}]      # one burst: larger than the 64 KiB receive buffer
+        jobs.append((c, 'one_burst', one))
+        jobs.append((c, 'random_cuts', sessprop.reseg(dict(sc, conns=[dict(sc['conns'][0], steps=[{"kind": "data", "items": 1}])]), 'rand')
+                     if c['lencase']['len'] <= 127 else dict(one, buffer_size=4096)))
+    logs = pipeline.execute([j[2] for j in jobs])
+    traces = [{"id": i, "tr": sessprop.slim(l, KINDS)} for i, l in enumerate(logs)]
+    rej, states, wall = pipeline.judge('Mon_C01', traces)
+    run.states += states
+    run.transitions += states
+    run.evaluations += len(jobs)
+    run.traces += len(jobs)
+    run.tlc_runs.append({"run": "judge Mon_C01 (length grid)", "traces": len(traces), "wall_s": round(wall, 1)})
+    run.cov['length_grid'] = {"cases": len(cases), "executions": len(jobs), "non_minimal_encodings": len([c for c in cases if not c['minimal']])}
+    delivered = sum(1 for l in logs if len([x for x in l if x['k'] == 'ev' and x['name'] in ('text', 'binary', 'ping', 'pong')]) >= 2)
+    run.cov['length_grid']['executions_with_all_messages_delivered'] = delivered
+    for tid, clause in rej:
+        c, pol, sc = jobs[tid]
+        run.violation(clause, {"instance": "length-grid/" + pol, "scenario": sc, "case": c})
+    if delivered < len(jobs):
+        run.note('length grid: %d of %d executions did not deliver every message' % (len(jobs) - delivered, len(jobs)))
